@@ -140,6 +140,9 @@ package agent
 //@ func (a *Agent) UpdateLastCallback(Teamserver TeamServer)
 //@   requires wf: a != nil && a.Info != nil && Teamserver != nil
 //@   modifies a.Info.LastCallIn
+// the time stamp written to the database and the one shown to operators are this agent's new one
+//@   guard-call row:   "AgentUpdate" arg(1) == a
+//@   guard-call shown: "AgentLastTimeCalled" arg(1) == a.NameID && arg(2) == a.Info.LastCallIn && arg(3) == a.Info.SleepDelay && arg(4) == a.Info.SleepJitter && arg(5) == a.Info.KillDate && arg(6) == a.Info.WorkingHours
 
 //@ func (a *Agent) Console(Console func(DemonID string, CommandID int, Output map[string]string), Type string, Text string, Output string)
 //@   requires nonnil: a != nil && Console != nil
